@@ -159,7 +159,7 @@ def policy_history(ctx, sc, entry):
 
 
 def gen_policy_history(rng):
-    sc = gen.rand_scenario(rng, max_attempts=(1, 3), p_special=0.06, specials=("abort", "cancel", "nested_open", "timeout", "timeout"), p_breaker=1.0, ncalls=(4, 10), p_abort=0.1, p_handler=0.1, p_budget=0.1)
+    sc = gen.rand_scenario(rng, max_attempts=(1, 3), p_special=0.06, specials=("abort", "cancel", "nested_open", "timeout", "timeout"), p_breaker=1.0, ncalls=(4, 10), p_abort=0.1, p_handler=0.1, p_budget=0.1, falsy_objects=True)
     br = sc["cfg"]["breaker"]
     br["threshold"] = rng.randint(1, 3)
     rcv, w = br["recovery"], br["window"]
